@@ -425,6 +425,8 @@ class FnTranslator:
                 return '[]', LIST(INT)
             xs = [self.expr(x) for x in e.elts]
             t0 = xs[0][1]
+            if any(t != t0 for _, t in xs) and isinstance(e, ast.Tuple):
+                return '(' + ', '.join(x for x, _ in xs) + ')', ('Tuple', [t for _, t in xs])
             if any(t != t0 for _, t in xs):
                 raise Untranslatable('heterogeneous list')
             return '[' + ', '.join(x for x, _ in xs) + ']', LIST(t0)
@@ -570,6 +572,10 @@ class FnTranslator:
                 if t == LIST(MSG):
                     return a, t
                 raise Untranslatable('MidiTrack of ' + str(t))
+            if n == 'int' and len(e.args) == 1 and not e.keywords and 'pyint' in getattr(self.unit, 'fn_params', {}):
+                a, t = self.expr(e.args[0])
+                if t == ('Text',):
+                    return f'(← pyint {a})', INT          # int(text): what it accepts and returns is a parameter of the unit
             if n == 'abs' and len(e.args) == 1:
                 a, t = self.expr(e.args[0])
                 return f'(Int.ofNat (Int.natAbs {a}))', INT
@@ -602,6 +608,15 @@ class FnTranslator:
             a, t = self.expr(e.args[2])
             if t == ('Text',):
                 return f'(subWs {a})', ('Text',)
+        if isinstance(f, ast.Attribute) and f.attr == 'split' and len(e.args) == 1 and not e.keywords \
+                and isinstance(e.args[0], ast.Constant) and isinstance(e.args[0].value, str) and len(e.args[0].value) == 1:
+            a, t = self.expr(f.value)
+            if t == ('Text',):
+                return f'(splitCode ({ord(e.args[0].value)} : Int) {a})', LIST(('Text',))
+        if isinstance(f, ast.Name) and f.id == 'int' and len(e.args) == 1 and not e.keywords and 'pyint' in getattr(self.unit, 'fn_params', {}):
+            a, t = self.expr(e.args[0])
+            if t == ('Text',):
+                return f'(← pyint {a})', INT          # int(text): what it accepts and returns is a parameter of the unit
         if isinstance(f, ast.Attribute) and f.attr == 'fromhex' and isinstance(f.value, ast.Name) and f.value.id == 'bytearray' \
                 and len(e.args) == 1 and not e.keywords:
             a, t = self.expr(e.args[0])
@@ -681,6 +696,14 @@ class FnTranslator:
             if k.arg not in names:
                 raise Untranslatable('keyword ' + str(k.arg))
             vals[k.arg] = self.expr(k.value)[0]
+        if set(vals) != set(names):
+            # parameters left at their defaults: the default values written in the callee's definition
+            fn = self.tr.find(u.file, u.name, u.cls)
+            pn = [a.arg for a in fn.args.args if a.arg != 'self']
+            dflt = dict(zip(pn[len(pn) - len(fn.args.defaults):], fn.args.defaults))
+            for nme in names:
+                if nme not in vals and nme in dflt and isinstance(dflt[nme], ast.Constant) and isinstance(dflt[nme].value, (bool, int)):
+                    vals[nme] = self.expr(dflt[nme])[0]
         if set(vals) != set(names):
             raise Untranslatable('arguments of ' + u.name)
         return ' '.join(vals[nme] for nme in names)
@@ -848,8 +871,18 @@ class FnTranslator:
             if n in self.env and self.env[n][1] != vt and not (val == '[]' and isinstance(self.env[n][1], tuple)):
                 et = self.env[n][1]
                 if not (isinstance(et, tuple) and isinstance(vt, tuple) and et[0] == vt[0] == 'List'):
+                    if getattr(self.unit, 'retype', False):
+                        # the Python name is rebound to a value of another type: a new Lean variable takes over the name
+                        self.nre = getattr(self, 'nre', 0) + 1
+                        new = f'{n}_{self.nre}'
+                        out.append(f'{ind}let mut {new} : {lty(vt)} := {val}')
+                        self.muts.append(new)
+                        self.env[n] = (new, vt)
+                        return
                     raise Untranslatable(f'variable {n} changes type {et} -> {vt}')
-            if n in self.muts:
+            if n in self.env and self.env[n][0] != n and self.env[n][0] in self.muts and self.env[n][1] == vt:
+                out.append(f'{ind}{self.env[n][0]} := {val}')
+            elif n in self.muts:
                 out.append(f'{ind}{n} := {val}')
             else:
                 self.muts.append(n)
@@ -1013,6 +1046,8 @@ class FnTranslator:
             if not getattr(self, 'loop_exit', None):
                 raise Untranslatable('break outside a while loop')
             return [f'{ind}return {self.loop_exit[-1]}']
+        if isinstance(s, ast.Raise) and s.exc is None and getattr(self, 'in_handler', 0):
+            return [f'{ind}throw e']          # bare `raise` in an except block: the exception being handled
         if isinstance(s, ast.Raise):
             exc = s.exc
             n = None
@@ -1060,6 +1095,13 @@ class FnTranslator:
             value = self.lift(s.value, ind, out)
             v, t = self.expr(value)
             tg = s.targets[0]
+            if isinstance(tg, ast.Tuple) and isinstance(t, tuple) and t[0] == 'List' and '←' not in v:
+                # a, b = xs : the list has exactly as many items (ValueError otherwise)
+                out.append(f'{ind}if (len {v}) != ({len(tg.elts)} : Int) then')
+                out.append(f'{ind}  throw Err.ValueError')
+                for i, el in enumerate(tg.elts):
+                    self.assign_target(el, f'(← idx {v} ({i} : Int))', t[1], ind, out)
+                return out
             if isinstance(tg, ast.Tuple):
                 if not (isinstance(t, tuple) and t[0] == 'Tuple' and len(t[1]) == len(tg.elts)):
                     raise Untranslatable('tuple assignment from ' + str(t))
@@ -1128,8 +1170,12 @@ class FnTranslator:
                 raise Untranslatable('try form')
             h = s.handlers[0]
             hn = h.type.id if isinstance(h.type, ast.Name) else None
-            classes = {'KeyError': ['KeyError'], 'LookupError': ['KeyError', 'IndexError', 'LookupError'],
-                       'IndexError': ['IndexError'], 'OSError': ['OSError', 'EOFError']}.get(hn)
+            ctab = {'KeyError': ['KeyError'], 'LookupError': ['KeyError', 'IndexError', 'LookupError'],
+                    'IndexError': ['IndexError'], 'OSError': ['OSError'], 'ValueError': ['ValueError']}
+            classes = ctab.get(hn)
+            if isinstance(h.type, ast.Tuple) and all(isinstance(x, ast.Name) and x.id in ctab for x in h.type.elts):
+                classes = [c for x in h.type.elts for c in ctab[x.id]]
+                hn = '(' + ', '.join(x.id for x in h.type.elts) + ')'
             if classes is None:
                 raise Untranslatable('except ' + str(hn))
             if len(s.body) == 1 and isinstance(s.body[0], ast.Assign) and isinstance(s.body[0].targets[0], ast.Name) \
@@ -1144,6 +1190,35 @@ class FnTranslator:
                 test = ' || '.join(f'e == Err.{c}' for c in classes)
                 self.assign_target(s.body[0].targets[0], f'(← mapErr (fun e => if {test} then Err.{xn} else e) (do return {v}))', vt, ind, out)
                 return out
+            if self.pm and len(s.body) == 1 and ((isinstance(s.body[0], ast.Expr) and isinstance(s.body[0].value, ast.Yield)
+                                                  and isinstance(s.body[0].value.value, ast.Call)) or
+                                                 (isinstance(s.body[0], ast.Assign) and isinstance(s.body[0].value, ast.Call)
+                                                  and isinstance(s.body[0].targets[0], ast.Name))):
+                # try: <one call whose value is yielded / assigned>  except E: H
+                # the call runs inside the try; what is done with its value, and the handler, run outside (no local variable
+                # changes inside the try itself)
+                callnode = s.body[0].value.value if isinstance(s.body[0], ast.Expr) else s.body[0].value
+                v, vt = self.expr(callnode)
+                if v.startswith('(← ') and v.endswith(')') and v.count('←') == 1:
+                    self.ntmp = getattr(self, 'ntmp', 0) + 1
+                    rn, vn = f'r__{self.ntmp}', f'v__{self.ntmp}'
+                    test = ' || '.join(f'e == Err.{c}' for c in classes)
+                    out.append(f'{ind}let {rn} ← tryCatch (do let v ← {v[3:-1]}; pure (Sum.inr v)) (fun e => if {test} then pure (Sum.inl e) else throw e)')
+                    out.append(f'{ind}match {rn} with')
+                    out.append(f'{ind}| Sum.inl e =>')
+                    self.in_handler = getattr(self, 'in_handler', 0) + 1
+                    out.extend(self.block(h.body, ind + '  '))
+                    self.in_handler -= 1
+                    out.append(f'{ind}| Sum.inr {vn} =>')
+                    self.env[vn] = (vn, vt)
+                    use = ast.Name(id=vn, ctx=ast.Load())
+                    if isinstance(s.body[0], ast.Expr):
+                        out.extend(self.call_stmt(ast.Yield(value=use), ind + '  '))
+                    else:
+                        tmp = []
+                        self.assign_target(s.body[0].targets[0], vn, vt, ind + '  ', tmp)
+                        out.extend(tmp)
+                    return out
             # variables first assigned inside the try body must exist before it
             for sub in s.body:
                 if isinstance(sub, ast.Assign) and isinstance(sub.targets[0], ast.Name) and sub.targets[0].id not in self.muts:
@@ -1158,7 +1233,9 @@ class FnTranslator:
             out.append(f'{ind}catch e =>')
             test = ' || '.join(f'e == Err.{c}' for c in classes)
             out.append(f'{ind}  if {test} then')
+            self.in_handler = getattr(self, 'in_handler', 0) + 1
             out.extend(self.block(h.body, ind + '    '))
+            self.in_handler -= 1
             out.append(f'{ind}  else throw e')
             return out
         raise Untranslatable('statement ' + type(s).__name__)
@@ -1637,6 +1714,8 @@ class FnTranslator:
                 params.append(f'({p} : {lty(t)})')
         for cname, cval in getattr(u, 'consts', {}).items():
             self.env[cname] = (('true' if cval else 'false'), BOOL)
+        for fname, fty in getattr(u, 'fn_params', {}).items():
+            params.append(f'({fname} : {fty})')
         for oname, od in getattr(u, 'opaque', {}).items():
             for a, t in od.get('attrs', {}).items():
                 params.append(f'({oname}_{a} : {lty(t)})')
@@ -1859,8 +1938,8 @@ class Translator:
 
     GROUPS = {'mido/messages/encode.py': 'Codec', 'mido/messages/decode.py': 'Codec', 'mido/messages/checks.py': 'Codec',
               'mido/tokenizer.py': 'Tok', 'mido/midifiles/meta.py': 'MetaNum', 'mido/midifiles/tracks.py': 'Tracks',
-              'mido/midifiles/midifiles.py': 'FileIO', 'mido/parser.py': 'Parser', 'mido/ports.py': 'Ports', 'mido/syx.py': 'Syx'}
-    DEPS = {'Codec': [], 'Msg': ['Codec'], 'Tok': [], 'Parser': ['Tok'], 'Ports': [], 'Charset': [], 'Syx': ['Tok', 'Parser'], 'MetaNum': [], 'Tracks': [], 'FileIO': ['MetaNum', 'Tracks']}
+              'mido/midifiles/midifiles.py': 'FileIO', 'mido/parser.py': 'Parser', 'mido/ports.py': 'Ports', 'mido/syx.py': 'Syx', 'mido/sockets.py': 'Sockets'}
+    DEPS = {'Codec': [], 'Msg': ['Codec'], 'Tok': [], 'Parser': ['Tok'], 'Ports': [], 'Charset': [], 'Syx': ['Tok', 'Parser'], 'Sockets': [], 'MetaNum': [], 'Tracks': [], 'FileIO': ['MetaNum', 'Tracks']}
 
     def run_groups(self):
         """one generated file per group of source files, so that a function that cannot be translated (or an edit that
@@ -2003,8 +2082,10 @@ def units():
             ('BasePort', 'close', [], NONE, None, []),
             ('BaseInput', 'receive', [('block', BOOL)], ('Opt', EXTMSG), {'loop1': 'fuel'}, [('fuel', 'Nat')]),
             ('BaseInput', 'poll', [], ('Opt', EXTMSG), None, [('fuel', 'Nat')]),
-            ('BaseInput', 'iter_pending', [], LIST(EXTMSG), {'loop1': 'fuel2'}, [('fuel', 'Nat'), ('fuel2', 'Nat')])):
-        u = Unit(PO, n, ps, ret, cls=cls, fields=pfields, self_type='(BasePort M D)', fuel=fuel, lean_name=f'{cls}.{n}')
+            ('BaseInput', 'iter_pending', [], LIST(EXTMSG), {'loop1': 'fuel2'}, [('fuel', 'Nat'), ('fuel2', 'Nat')]),
+            ('BaseInput', '__iter__', [], LIST(EXTMSG), {'loop1': 'fuel2'}, [('fuel', 'Nat'), ('fuel2', 'Nat')])):
+        u = Unit(PO, n, ps, ret, cls=cls, fields=pfields, self_type='(BasePort M D)', fuel=fuel,
+                 lean_name=f'{cls}.{n}' if n != '__iter__' else f'{cls}.iter_all')
         u.pm, u.ext, u.extra = True, True, extra
         u.ext_sig = '{M D : Type} (ext : PortExt M D)'
         u.struct_text, u.field_defaults = port_struct, {}
@@ -2015,6 +2096,10 @@ def units():
         u.hasattr = {'autoreset': True}
         u.attr_consts = {'is_input': True, 'is_output': True}
         U.append(u)
+    u = Unit('mido/sockets.py', 'parse_address', [('address', ('Text',))], ('Tuple', [('Text',), INT]))
+    u.fn_params = {'pyint': 'List Int → Except Err Int'}
+    u.retype = True
+    U.append(u)
     u = Unit('mido/syx.py', 'read_syx_file', [], LIST(EXTMSG), fuel={'loop1': 'parser.messages.length + 1'})
     u.ext, u.file_param, u.consts = True, 'file_bytes', {}
     u.extra = [('file_bytes', '(List Int)')]
